@@ -2,6 +2,7 @@ mod shapes;
 mod ledger;
 mod mathx;
 mod text;
+mod markers;
 
 fn total(a: felt252, b: felt252) -> felt252 {
     let p = shapes::Point { x: a, y: b, tag: 3 };
